@@ -36,7 +36,7 @@ CANCEL_AT = [0.25, 0.5, 0.75, 1.0, 1.25]
 
 def table(active):
     c = gconfig._GeckoActiveConfig() if active else gconfig._GeckoIdleConfig()
-    return {m: getattr(c, m) for m in gconfig.CONFIG_MEMBERS}
+    return {m: getattr(c, m) for m in lib.SETTINGS}
 
 
 def _table_check():
@@ -48,7 +48,7 @@ def _table_check():
             if poison:
                 # whatever the root held before (an application that tuned a time-out, a test that poked it): a switch
                 # installs the COMPLETE table
-                for k_, m_ in enumerate(gconfig.CONFIG_MEMBERS):
+                for k_, m_ in enumerate(lib.SETTINGS):
                     setattr(gconfig.GeckoConfig, m_, 7000 + k_)
             loop = VLoop(Chooser())
             VNet(loop)
@@ -262,6 +262,41 @@ def _facade_job(snapname):
                 break
         if viol:
             break
+    if not viol:
+        # a device changes state while the facade's periodic update is suspended inside one of its own requests (the
+        # moment its GETWC leaves): whatever that update decided before, the table follows the devices once it is through
+        def put(states):
+            blk = rig.peer.block
+            for (d, f, (on, off)), want in zip(fields, states):
+                nb = f.put_raw(blk, on if want else off)
+                if nb != blk:
+                    blk = nb
+                    rig.spa.struct.replace_status_block_segment(f.pos, blk[f.pos:f.pos + f.width])
+            rig.peer.set_block(blk)
+
+        put((False,) * len(devs))
+        for want in (True, False, True):
+            fired = []
+
+            def tap(now, src, dst, data, want=want):
+                if b"GETWC" in data and not fired:
+                    fired.append(now)
+                    rig.loop.call_soon(put, (want,) + (False,) * (len(devs) - 1))
+
+            prev_tap, rig.net.tap = rig.net.tap, tap
+            rig.loop.run_for(140.0, lambda: bool(fired))
+            rig.net.tap = prev_tap
+            if not fired:
+                raise core.HarnessError(f"C17: no facade update of {snapname} within 140 s")
+            rig.loop.run_for(3.0)
+            n += 1
+            if bool(devs[0].is_on) != want:
+                raise core.HarnessError(f"C17: device {devs[0].key} did not follow the block")
+            if lib.config_values() != table(want):
+                viol.append((f"C17|facade|mode-change-during-update", f"{snapname}: {devs[0].key} went {'on' if want else 'off'} while the facade's "
+                             f"periodic update was waiting for its watercare reply; 3 s later GeckoConfig is not the "
+                             f"{'active' if want else 'idle'} table", {"mode": "facade", "snapshot": snapname}))
+                break
     rig.exit()
     rig.close()
     return snapname, len(devs), n, viol
